@@ -102,10 +102,6 @@ theorem Agree.write {S : List Path} {a b : FS} (h : Agree S a b) (p : Path) (x :
     intro hm
     exact hq (List.mem_filter.2 ⟨hm, by simpa using hqp⟩)
 
-/-- the paths whose *content* a vocabulary command reads -/
-def catReads (cfg : Cfg) (fs : FS) (wd : Path) (acts : List (Str × Str)) : List Path :=
-  acts.filterMap (fun ka => if ka.1 = "cat".toList then fs.resolve cfg wd ka.2 else none)
-
 theorem runAct_rel (cfg : Cfg) (wd : Path) (src : Str) (S : List Path) (a b : FS) (hag : Agree S a b) (k arg : Str)
     (hcat : k = "cat".toList → ∀ p, a.resolve cfg wd arg = some p → p ∉ S) :
     (runAct cfg wd src a k arg).1 = (runAct cfg wd src b k arg).1 ∧
@@ -165,12 +161,6 @@ theorem runActs_rel (cfg : Cfg) (wd : Path) (src : Str) (S : List Path) (fs0 : F
     split
     · exact hp
     · exact List.mem_cons_of_mem _ hp
-
-/-- the paths whose content the command `cmd` reads -/
-def cmdReads (cfg : Cfg) (fs : FS) (wd : Path) (cmd : Str) : List Path :=
-  match cfg.cmds.find? (fun kv => kv.1 == cmd) with
-  | none => []
-  | some (_, acts) => catReads cfg fs wd acts
 
 theorem run_rel (cfg : Cfg) (wd : Path) (src : Str) (S : List Path) (fs0 a b : FS) (cmd : Str) (hag : Agree S a b)
     (hd : a.dirs = fs0.dirs) (hc : ∀ p ∈ cmdReads cfg fs0 wd cmd, p ∉ S) :
@@ -250,15 +240,6 @@ theorem writeTemp_rel (cfg : Cfg) (wd : Path) (src : Str) (a b : FS) (t c : Str)
       obtain ⟨b', hb1, hb2, hb3, hb4⟩ := key b
       exact ⟨p, a', b', rfl, ha1, hb1, ha2, hb2, by rw [ha3, hb3], ha4, hb4⟩
 
-/-- the candidate names `get_txtpp_file` tests for existence -/
-def nameCands (n : Str) : List Str :=
-  if PathName.isTxtppFile n then [] else
-  match PathName.extension n with
-  | some e =>
-    [PathName.setExtension n (e ++ '.' :: PathName.txtpp),
-     PathName.setExtension (PathName.setExtension (PathName.setExtension n (e ++ '.' :: PathName.txtpp)) []) (PathName.txtpp ++ '.' :: e)]
-  | none => [PathName.setExtension n PathName.txtpp]
-
 theorem getTxtppFile_congr (ex ex' : Str → Bool) (n : Str) (h : ∀ c ∈ nameCands n, ex c = ex' c) :
     PathName.getTxtppFile ex n = PathName.getTxtppFile ex' n := by
   unfold PathName.getTxtppFile
@@ -273,13 +254,6 @@ theorem getTxtppFile_congr (ex ex' : Str → Bool) (n : Str) (h : ∀ c ∈ name
     | some e =>
       simp only [he] at h ⊢
       rw [h _ (by simp), h _ (by simp)]
-
-/-- the paths whose *existence* the dependency lookup for `arg` tests -/
-def depProbes (cfg : Cfg) (fs : FS) (wd : Path) (arg : Str) : List Path :=
-  match depSplit cfg wd arg with
-  | none => []
-  | some (parentComps, name) =>
-    (nameCands name).filterMap (fun cand => fs.walk [] (parentComps ++ [cand]))
 
 theorem depOf_rel (cfg : Cfg) (wd : Path) (a b : FS) (arg : Str) (hd : a.dirs = b.dirs)
     (hp : ∀ p ∈ depProbes cfg a wd arg, a.isFile p = b.isFile p) :
@@ -310,30 +284,6 @@ theorem depOf_rel (cfg : Cfg) (wd : Path) (a b : FS) (arg : Str) (hd : a.dirs = 
       | none => rfl
       | some cand => simp only; rw [hw]
 
-/-- the path a `temp` block writes when it is executed -/
-def dirWrites (cfg : Cfg) (fs0 : FS) (wd : Path) (d : Directive) : Option Path :=
-  if d.ty = .temp then
-    match d.args with
-    | t :: _ => if isTxtppPath t then none else fs0.resolve cfg wd t
-    | [] => none
-  else none
-
-/-- the paths whose content the execution of a block reads -/
-def dirReads (cfg : Cfg) (fs0 : FS) (wd : Path) (d : Directive) : List Path :=
-  match d.ty with
-  | .include => (fs0.resolve cfg wd (d.args.headD [])).toList
-  | .run => cmdReads cfg fs0 wd (joinWith [' '] d.args)
-  | _ => []
-
-/-- the paths whose existence the dependency lookup of a block tests -/
-def dirProbes (cfg : Cfg) (fs0 : FS) (wd : Path) (d : Directive) : List Path :=
-  if d.ty = .include ∨ d.ty = .after then depProbes cfg fs0 wd (d.args.headD []) else []
-
-def staleAfterDir (cfg : Cfg) (fs0 : FS) (wd : Path) (d : Directive) (S : List Path) : List Path :=
-  match dirWrites cfg fs0 wd d with
-  | some p => S.filter (· != p)
-  | none => S
-
 /-- order-aware: no block reads a path that is still stale when the block is reached; a `temp`
     block makes its target fresh -/
 def Safe (cfg : Cfg) (fs0 : FS) (wd : Path) : List (Block Directive) → List Path → Prop
@@ -349,6 +299,40 @@ def staleAfter (cfg : Cfg) (fs0 : FS) (wd : Path) : List (Block Directive) → L
 
 def ProbesOK (cfg : Cfg) (fs0 : FS) (wd : Path) (S0 : List Path) (bs : List (Block Directive)) : Prop :=
   ∀ d e, Block.dir d e ∈ bs → ∀ p ∈ dirProbes cfg fs0 wd d, p ∉ S0
+
+theorem safeB_iff (cfg : Cfg) (fs0 : FS) (wd : Path) : ∀ (bs : List (Block Directive)) (S : List Path),
+    safeB cfg fs0 wd bs S = true ↔ Safe cfg fs0 wd bs S := by
+  intro bs
+  induction bs with
+  | nil => intro S; simp [safeB, Safe]
+  | cons b bs ih =>
+    intro S
+    cases b with
+    | text l => simp only [safeB, Safe]; exact ih S
+    | dir d e =>
+      simp only [safeB, Safe, Bool.and_eq_true, List.all_eq_true, Bool.not_eq_true', ih]
+      constructor
+      · rintro ⟨h1, h2⟩
+        exact ⟨fun p hp hm => by have := h1 p hp; simp [hm] at this, h2⟩
+      · rintro ⟨h1, h2⟩
+        exact ⟨fun p hp => by simpa using h1 p hp, h2⟩
+
+theorem probesB_iff (cfg : Cfg) (fs0 : FS) (wd : Path) (S0 : List Path) (bs : List (Block Directive)) :
+    probesB cfg fs0 wd S0 bs = true ↔ ProbesOK cfg fs0 wd S0 bs := by
+  simp only [probesB, ProbesOK, List.all_eq_true]
+  constructor
+  · intro h d e hm p hp hc
+    have := h _ hm
+    simp only [List.all_eq_true] at this
+    have := this p hp
+    simp [hc] at this
+  · intro h b hb
+    cases b with
+    | text l => rfl
+    | dir d e =>
+      simp only [List.all_eq_true, Bool.not_eq_true']
+      intro p hp
+      simpa using h d e hb p hp
 
 /-- the relation between the two runs, indexed by the blocks still to come -/
 def PRel (cfg : Cfg) (fs0 : FS) (wd : Path) (S0 Sfin : List Path) (bs : List (Block Directive)) (x y : PpState FS) : Prop :=
@@ -687,12 +671,6 @@ theorem ppPass_rel (cfg : Cfg) (wd : Path) (src : Str) (mode : Mode) (hm : mode 
           subst hfin
           exact ⟨rfl, hdx, hag0, hS'⟩
 
-/-- the stale set after the output has been opened: build truncates it on both sides -/
-def staleOpen (mode : Mode) (S : List Path) (o : Path) : List Path :=
-  match mode with
-  | .build => S.filter (· != o)
-  | _ => S
-
 theorem sinkStart_rel (mode : Mode) (hm : mode = .build ∨ mode = .inMemory) (S : List Path) (a b : FS) (o : Path)
     (hag : Agree S a b) :
     (sinkStart mode a o = none ∧ sinkStart mode b o = none) ∨
@@ -828,10 +806,6 @@ theorem runPass_rel (cfg : Cfg) (hm : cfg.mode = .build ∨ cfg.mode = .inMemory
             exact ⟨rfl, h2.mono hsub, fun h => by simp at h⟩
           · exact ⟨rfl, hag1.mono hsub, fun h => by simp at h⟩
 
-/-- the paths a pass over these blocks generates: the output and the targets of its temp blocks -/
-def generated (cfg : Cfg) (fs0 : FS) (wd : Path) (o : Path) (bs : List (Block Directive)) : List Path :=
-  o :: bs.filterMap (fun b => match b with | .dir d _ => dirWrites cfg fs0 wd d | .text _ => none)
-
 theorem mem_generated (cfg : Cfg) (fs0 : FS) (wd : Path) (o : Path) (bs : List (Block Directive)) (q : Path) :
     q ∈ generated cfg fs0 wd o bs ↔ q = o ∨ ∃ d e, Block.dir d e ∈ bs ∧ dirWrites cfg fs0 wd d = some q := by
   simp only [generated, List.mem_cons, List.mem_filterMap]
@@ -914,5 +888,106 @@ theorem runPass_idempotent (cfg : Cfg) (hm : cfg.mode = .build ∨ cfg.mode = .i
   rw [h1] at h
   simp only at h
   exact ⟨h.1.symm, fun q => (h.2 trivial q).symm⟩
+
+/-- the executable side condition computed by the driver (`srcSafeB`) is exactly the hypotheses of
+    the one-source theorems, with everything the pass generates taken as stale -/
+theorem srcSafeB_spec (cfg : Cfg) (fs : FS) (src : Path) (h : srcSafeB cfg fs src = some true) :
+    ∃ content o bs, fs.file? src = some content ∧ outputPath src = some o ∧
+      srcBlocks cfg.mode (decodeLines (byteLines content.toList)).1 = some bs ∧
+      src ∉ generated cfg fs src.dropLast o bs ∧
+      Safe cfg fs src.dropLast bs (generated cfg fs src.dropLast o bs) ∧
+      ProbesOK cfg fs src.dropLast (generated cfg fs src.dropLast o bs) bs := by
+  unfold srcSafeB at h
+  cases hf : fs.file? src with
+  | none => simp [hf] at h
+  | some content =>
+    cases ho : outputPath src with
+    | none => simp [hf, ho] at h
+    | some o =>
+      cases hb : srcBlocks cfg.mode (decodeLines (byteLines content.toList)).1 with
+      | none => simp [hf, ho, hb] at h
+      | some bs =>
+        simp only [hf, ho, hb, Option.some.injEq, Bool.and_eq_true, Bool.not_eq_true'] at h
+        obtain ⟨⟨⟨⟨h1, h2⟩, h3⟩, _⟩, _⟩ := h
+        exact ⟨content, o, bs, rfl, rfl, hb, by simpa using h1, (safeB_iff cfg fs _ bs _).1 h2, (probesB_iff cfg fs _ _ bs).1 h3⟩
+
+theorem staleAfterDir_mono (cfg : Cfg) (fs0 : FS) (wd : Path) (d : Directive) (S S' : List Path) (h : ∀ q, q ∈ S' → q ∈ S) :
+    ∀ q, q ∈ staleAfterDir cfg fs0 wd d S' → q ∈ staleAfterDir cfg fs0 wd d S := by
+  intro q hq
+  unfold staleAfterDir at hq ⊢
+  cases hw : dirWrites cfg fs0 wd d with
+  | none => rw [hw] at hq; exact h q hq
+  | some p =>
+    rw [hw] at hq
+    simp only [List.mem_filter] at hq ⊢
+    exact ⟨h q hq.1, hq.2⟩
+
+/-- fewer stale paths: still safe -/
+theorem Safe.mono (cfg : Cfg) (fs0 : FS) (wd : Path) : ∀ (bs : List (Block Directive)) (S S' : List Path),
+    (∀ q, q ∈ S' → q ∈ S) → Safe cfg fs0 wd bs S → Safe cfg fs0 wd bs S' := by
+  intro bs
+  induction bs with
+  | nil => intro S S' _ _; trivial
+  | cons b bs ih =>
+    intro S S' hsub hs
+    cases b with
+    | text l => exact ih S S' hsub hs
+    | dir d e =>
+      exact ⟨fun p hp hm => hs.1 p hp (hsub p hm), ih _ _ (staleAfterDir_mono cfg fs0 wd d S S' hsub) hs.2⟩
+
+theorem ProbesOK.mono (cfg : Cfg) (fs0 : FS) (wd : Path) (bs : List (Block Directive)) (S S' : List Path)
+    (hsub : ∀ q, q ∈ S' → q ∈ S) (h : ProbesOK cfg fs0 wd S bs) : ProbesOK cfg fs0 wd S' bs :=
+  fun d e hm p hp hc => h d e hm p hp (hsub p hc)
+
+/-- the two extra facts `srcSafeB` checks: the output path is not a directory and not a temp target -/
+theorem srcSafeB_output (cfg : Cfg) (fs : FS) (src : Path) (h : srcSafeB cfg fs src = some true) :
+    ∀ o, outputPath src = some o → fs.isDir o = false ∧
+      ∀ content bs, fs.file? src = some content → srcBlocks cfg.mode (decodeLines (byteLines content.toList)).1 = some bs →
+        ∀ d e, Block.dir d e ∈ bs → dirWrites cfg fs src.dropLast d ≠ some o := by
+  intro o ho
+  unfold srcSafeB at h
+  cases hf : fs.file? src with
+  | none => simp [hf] at h
+  | some content =>
+    cases hb : srcBlocks cfg.mode (decodeLines (byteLines content.toList)).1 with
+    | none => simp [hf, ho, hb] at h
+    | some bs =>
+      simp only [hf, ho, hb, Option.some.injEq, Bool.and_eq_true, Bool.not_eq_true'] at h
+      obtain ⟨⟨_, h4⟩, h5⟩ := h
+      refine ⟨h4, fun c' bs' hc' hb' d e hm hw => ?_⟩
+      cases hc'
+      rw [hb] at hb'; cases hb'
+      have : o ∈ (generated cfg fs src.dropLast o bs).tail := by
+        simp only [generated, List.tail_cons, List.mem_filterMap]
+        exact ⟨.dir d e, hm, hw⟩
+      simp [this] at h5
+
+theorem staleOpen_sub (mode : Mode) (S : List Path) (o : Path) : ∀ q, q ∈ staleOpen mode S o → q ∈ S := by
+  intro q hq
+  unfold staleOpen at hq
+  cases mode <;> simp only at hq
+  · exact (List.mem_filter.1 hq).1
+  all_goals exact hq
+
+/-- where the executable check answers `true`, building twice equals building once -/
+theorem idempotent_where_checked (cfg : Cfg) (hm : cfg.mode = .build ∨ cfg.mode = .inMemory) (a a' : FS) (src : Path)
+    (first : Bool) (hs : srcSafeB cfg a src = some true) (h1 : runPass cfg a src first = (.ok, a')) :
+    (runPass cfg a' src first).1 = .ok ∧ ∀ q, (runPass cfg a' src first).2.file? q = a'.file? q := by
+  obtain ⟨content, o, bs, hfile, hout, hbs, hsrc, hsafe, hprobes⟩ := srcSafeB_spec cfg a src hs
+  exact runPass_idempotent cfg hm a a' src first content o bs hfile hout hbs hsrc
+    (Safe.mono cfg a _ bs _ _ (staleOpen_sub cfg.mode _ o) hsafe)
+    (ProbesOK.mono cfg a _ bs _ _ (staleOpen_sub cfg.mode _ o) hprobes) h1
+
+/-- … and leftovers at the generated paths are irrelevant -/
+theorem leftovers_where_checked (cfg : Cfg) (hm : cfg.mode = .build ∨ cfg.mode = .inMemory) (a b : FS) (src : Path)
+    (first : Bool) (hs : srcSafeB cfg a src = some true)
+    (hag : ∀ content o bs, a.file? src = some content → outputPath src = some o →
+      srcBlocks cfg.mode (decodeLines (byteLines content.toList)).1 = some bs → Agree (generated cfg a src.dropLast o bs) a b) :
+    (runPass cfg a src first).1 = (runPass cfg b src first).1 ∧
+    ((runPass cfg a src first).1 = .ok → ∀ q, (runPass cfg a src first).2.file? q = (runPass cfg b src first).2.file? q) := by
+  obtain ⟨content, o, bs, hfile, hout, hbs, hsrc, hsafe, hprobes⟩ := srcSafeB_spec cfg a src hs
+  exact runPass_leftovers_irrelevant cfg hm a b _ src first content o bs hfile hout hbs (hag content o bs hfile hout hbs) hsrc
+    (fun _ hp => hp) (Safe.mono cfg a _ bs _ _ (staleOpen_sub cfg.mode _ o) hsafe)
+    (ProbesOK.mono cfg a _ bs _ _ (staleOpen_sub cfg.mode _ o) hprobes)
 
 end Txt
